@@ -118,6 +118,20 @@ def check_state(res, p, rng, ctx):
         return
     raw = p.read()
     res.case((tuple(map(repr, before)), "native"), nontrivial=nontrivial)
+    # an application that COLLECTS the chunk sequence first (to sort, measure or checksum it) and writes it afterwards
+    # gets the same file as the streaming writer
+    if nontrivial and rng.random() < 0.3:
+        held = list(p.chunks())
+        res.count("held_chunk_sequences")
+        try:
+            data = iffparse.build([(bytes(n), bytes(d)) for n, d in held if n is not None])      # (a None name is a documented no-op)
+        except Exception as e:
+            res.violation(f"C08:held-chunks:{type(e).__name__}", f"a collected chunk sequence cannot be written: {e!r}", case)
+        else:
+            if data != raw:
+                k = next((i for i, (x, y) in enumerate(zip(iffparse.parse(data), iffparse.parse(raw))) if x[:2] != y[:2]), None)
+                res.violation("C08:held-chunks-differ", f"list(project.chunks()) written out differs from project.read() (first differing chunk #{k}: "
+                                                        f"{iffparse.parse(raw)[k][0] if k is not None else '?'})", case)
 
     def load_and_compare(data, kind, exact):
         try:
